@@ -176,6 +176,22 @@ def _guard_key(test):
     return (src(test), pol)
 
 
+def _lits(t, pol):
+    out = []
+
+    def rec(t, pol):
+        while isinstance(t, ast.UnaryOp) and isinstance(t.op, ast.Not):
+            t, pol = t.operand, not pol
+        if isinstance(t, ast.BoolOp):
+            if (isinstance(t.op, ast.And) and pol) or (isinstance(t.op, ast.Or) and not pol):
+                for v in t.values:
+                    rec(v, pol)
+            return
+        out.append((t, pol))
+    rec(t, pol)
+    return out if len(out) > 1 else []
+
+
 def _names_in(node):
     out = set()
     for n in ast.walk(node):
@@ -413,6 +429,17 @@ def enum_paths(body, cap=20000, prune=True, prog=None, func=None, inline=True):
                     continue
                 f2 = dict(facts)
                 f2[key] = p
+                # literals implied by the outcome (conjuncts of a true `and`, disjuncts of a false `or`)
+                okl = True
+                for lt, lp in _lits(s.test, bpol):
+                    lk, lpol = _guard_key(lt)
+                    lpol = lpol if lp else (not lpol)
+                    if prune and not consistent(f2, lk, lpol):
+                        okl = False
+                        break
+                    f2[lk] = lpol
+                if not okl:
+                    continue
                 run(branch, 0, prefix + [Ev("guard", s, s.test, bpol)], f2, endif, ctx)
             return
         if isinstance(s, ast.Assert):
